@@ -7,7 +7,7 @@ from ..driver import ScenarioEnd
 
 ANCHORS = ['parse_term', 'parse_arguments', 'parse_linked_list', 'parse_complex', 'parse_function', 'parse_query', 'parse_subgoal',
            'generate_goal', 'parse_rule', 'make_logic_var', 'check_infix', 'tokenize', 'token_tree_to_goal']
-WITNESSES = {'all': ['ok', 'err', 'symbolic', 'mutated', 'truncated']}
+WITNESSES = {'all': ['ok', 'err', 'symbolic', 'mutated', 'truncated', 'template']}
 OPTS = {'quick': {'selfcheck_mod': 60, 'budget_s': 280, 'max_paths_per_case': 60000},
         'thorough': {'selfcheck_mod': 2000, 'budget_s': 3000, 'max_paths_per_case': 400000}}
 STEP_LIMIT = 400_000
@@ -16,9 +16,9 @@ ALPHABET = 'a1$_()[],| .-+"\\=;:<>*/!#\u00e9'
 BOUNDS = {
     'quick': 'every string of length 0-3 over the 27-symbol alphabet ' + repr(ALPHABET) + ' (each character a solver variable) through each of 13 entry points '
              '(parse_term, parse_arguments, parse_linked_list, parse_complex, parse_function, parse_query, parse_subgoal, generate_goal, parse_rule, make_logic_var, '
-             'check_quotes, check_infix, check_arithmetic_infix); plus every text of a 40-item corpus of valid source with one position replaced by a symbolic '
-             'alphabet character, and truncated at every position; 400k-statement step limit per call (a loop shows as a hang)',
-    'thorough': 'strings up to length 4 (5 for the leaf parsers), two replaced positions in the corpus texts',
+             'check_quotes, check_infix, check_arithmetic_infix); plus every text of a 75-item corpus of valid source and of 50-60 character texts with balanced and unbalanced quotes with one position replaced by a symbolic '
+             'alphabet character, and truncated at every position; 8 templates (`[`..`]`, `f(`..`)`, `p(a) :- `...`.`, bare arguments / subgoals / terms / queries / goals) whose interior of up to 4-6 characters is symbolic over the 7-10 structural characters of that syntax; 400k-statement step limit per call (a loop shows as a hang)',
+    'thorough': 'strings up to length 4 (5 for the leaf parsers), two replaced positions in the corpus texts, template interiors one character longer',
 }
 OUTSIDE = 'strings longer than the bound; characters outside the alphabet (other than those in the corpus)'
 ASSUMPTIONS = ['a Rust panic (explicit panic!, unwrap on None, index or slice out of range, arithmetic overflow in the dev profile) and a call exceeding the step limit are the violations']
@@ -43,8 +43,24 @@ CORPUS = {
 }
 
 
+# templates: fixed outer text, an interior of k solver-variable characters over the structural characters of that syntax (longer than the
+# all-alphabet strings above can be, because the alphabet is the handful of characters the parser branches on)
+TEMPLATES = [('list', '[', ']', 'a$T,| "', 6, 7), ('complex', 'f(', ')', 'a$X," ()', 5, 6), ('args', '', '', 'a$,"\\(1-', 4, 5), ('rule', 'p(a) :- ', '.', 'q($X),;!. ', 4, 5),
+             ('subgoal', '', '', '$X=1<+a ', 6, 7), ('term', '', '', '[]a,|$"', 5, 6), ('query', '', '', 'p($X).,', 5, 6), ('goal', '', '', 'a,;() !', 5, 6)]
+
+
+# long texts (beyond any fixed-size buffer or message limit one might think of), valid and with unbalanced quotes
+LONG = ['"' + 'abcdefghij' * 5 + '"', '"' + 'abcdefghij' * 5, 'ab"' + 'cdefghijkl' * 5 + '" "', 'f(' + 'abcdefghi, ' * 4 + '"abcdefghijklmnopqrstuvwxyz)']
+for _e in ('term', 'args', 'list', 'check_quotes', 'subgoal'):
+    CORPUS[_e] = CORPUS[_e] + ([t if _e != 'list' else '[' + t + ']' for t in LONG[:3]] if _e != 'subgoal' else [LONG[3]])
+
+
 def cases(tier, seed):
     out = []
+    for e, pre, post, alpha, kq, kt in TEMPLATES:
+        for k in range(1, (kq if tier == 'quick' else kt) + 1):
+            for ch in alpha:
+                out.append({'id': '%s: %r + %r + %d symbolic of %r + %r' % (e, pre, ch, k - 1, alpha, post), 'fam': 'tpl', 'entry': e, 'pre': pre, 'post': post, 'alpha': alpha, 'k': k, 'first': ch})
     NQ = {'term': 3, 'args': 3, 'list': 4, 'complex': 4, 'function': 4, 'query': 4, 'subgoal': 4, 'goal': 3, 'rule': 4,
           'logicvar': 4, 'check_quotes': 4, 'infix': 4, 'arith_infix': 4}
     for e in ENTRY:
@@ -58,7 +74,7 @@ def cases(tier, seed):
             for pos in range(len(t)):
                 out.append({'id': '%s: %r with position %d replaced' % (e, t, pos), 'fam': 'mut', 'entry': e, 'text': t, 'pos': [pos]})
                 out.append({'id': '%s: %r truncated to %d' % (e, t, pos), 'fam': 'trunc', 'entry': e, 'text': t[:pos]})
-            if tier != 'quick' and len(t) <= 14:
+            if tier != 'quick' and len(t) <= 14:      # (two positions only in the short texts)
                 for p1 in range(len(t)):
                     for p2 in range(p1 + 1, len(t)):
                         out.append({'id': '%s: %r with positions %d,%d replaced' % (e, t, p1, p2), 'fam': 'mut', 'entry': e, 'text': t, 'pos': [p1, p2]})
@@ -84,6 +100,14 @@ def run(drv, case):
     if fam == 'sym':
         chars = ([case['first']] if case['n'] else []) + [sym_alpha(m, 'c%d' % i) for i in range(1, case['n'])]
         tag = 'symbolic'
+    elif fam == 'tpl':
+        chars = list(case['pre']) + [case['first']]
+        for i in range(1, case['k']):
+            c = m.fresh('c%d' % i, 'char')
+            if isinstance(c, Sym): m.assume(Sym(z3.Or([c.e == ord(x) for x in case['alpha']]), 'bool'))
+            chars.append(c)
+        chars += list(case['post'])
+        tag = 'template'
     elif fam == 'mut':
         chars = list(case['text'])
         for p in case['pos']: chars[p] = sym_alpha(m, 'c%d' % p)
